@@ -208,6 +208,79 @@ def _method_is_const(m):
     return False
 
 
+_MW_CACHE = {}
+
+
+def _member_writes(m, depth):
+    """{'this.field', ...} a method of `this` may write (through itself and the same-object methods it
+    calls), or None when its body is not available / it hands `this` out"""
+    rid = m.get('referencedMemberDecl')
+    if not rid or depth > 3:
+        return None
+    if rid in _MW_CACHE:
+        return _MW_CACHE[rid]
+    body = None
+    for d in DECLS.get(rid, ()):
+        if d.get('name') == m.get('name') and body_of(d) is not None:
+            body = body_of(d)
+    if body is None:
+        # declaration and definition are different nodes: look for a definition of the same name / signature
+        for d in DECLS.get(rid, ()):
+            mn = d.get('mangledName')
+            if mn:
+                for lst in DECLS.values():
+                    for e in lst:
+                        if e.get('mangledName') == mn and body_of(e) is not None:
+                            body = body_of(e)
+                            break
+                    if body is not None:
+                        break
+    if body is None:
+        _MW_CACHE[rid] = None
+        return None
+    _MW_CACHE[rid] = set()      # recursion guard
+    out = set()
+    ok = True
+    for x in walk(body):
+        k = x.get('kind')
+        if k in ('BinaryOperator', 'CompoundAssignOperator') and x.get('opcode') in ASSIGN_OPS:
+            v = var_key(x['inner'][0])
+            if v and v.startswith('this.'):
+                out.add(v)
+            elif v is None:
+                ok = False
+        elif k == 'UnaryOperator' and x.get('opcode') in ('++', '--'):
+            v = var_key(x['inner'][0])
+            if v and v.startswith('this.'):
+                out.add(v)
+        elif k == 'UnaryOperator' and x.get('opcode') == '&':
+            v = var_key(x['inner'][0])
+            if v and v.startswith('this.'):
+                out.add(v)
+                out.add(v + '.*')
+        elif k == 'CXXMemberCallExpr':
+            mm = strip(x['inner'][0])
+            if mm.get('kind') == 'MemberExpr' and not _method_is_const(mm):
+                obj = mm['inner'][0] if mm.get('inner') else None
+                v = var_key(obj) if obj is not None else 'this'
+                if v == 'this':
+                    sub = _member_writes(mm, depth + 1)
+                    if sub is None:
+                        ok = False
+                    else:
+                        out |= sub
+                elif v and v.startswith('this.'):
+                    out.add(v)
+                    out.add(v + '.*')
+        elif k == 'CXXThisExpr':
+            p_ = x.get('_p')
+            if p_ is not None and p_.get('kind') not in ('MemberExpr', 'ImplicitCastExpr'):
+                ok = False      # `this` escapes
+    res = out if ok else None
+    _MW_CACHE[rid] = res
+    return res
+
+
 def assigned_keys(n):
     """Keys that may be modified by executing n (over-approximation)."""
     out = set()
@@ -232,6 +305,14 @@ def assigned_keys(n):
                 if not is_const:
                     obj = m['inner'][0] if m.get('inner') else None
                     v = var_key(obj) if obj is not None else 'this'
+                    if v == 'this':
+                        # a non-const method of the same object whose body is known writes only the
+                        # members it (transitively) assigns, not every member
+                        w_ = _member_writes(m, 0)
+                        if w_ is not None:
+                            out |= w_
+                            _args_may_modify(x['inner'][1:], out)
+                            continue
                     if v:
                         out.add(v)
                         out.add(v + '.*')
